@@ -497,6 +497,10 @@ func famPlan(tr *Trace, scratch string, seed int64, tier string, workers int) M 
 			{{Type: "tree", Src: "r", Dst: "/opt/x"}, {Type: "file", Src: "e/app.conf", Dst: "/opt/x/share/extra"}},
 			{{Type: "tree", Src: "r", Dst: "/usr"}, {Type: "tree", Src: "r", Dst: "/usr"}},
 			{{Type: "tree", Src: "r", Dst: "/usr"}, {Type: "tree", Src: "e", Dst: "/usr/bin"}},
+			// declared directories at paths the distribution owns stay declared directories
+			{{Type: "dir", Dst: "/var/cache", Fi: own, HasFi: true}},
+			{{Type: "dir", Dst: "/opt"}, {Type: "dir", Dst: "/usr/local/bin", Fi: own, HasFi: true}, {Type: "file", Src: "e/app.conf", Dst: "/usr/local/bin/x"}},
+			{{Type: "file", Src: "e/app.conf", Dst: "/etc/x/y"}, {Type: "dir", Dst: "/etc"}},
 		}
 		for _, l := range lists {
 			for _, pk := range []string{"deb", "rpm"} {
